@@ -93,6 +93,27 @@ def matrix(tier, seed):
     return cfgs
 
 
+def wide_matrix(cfgs, name):
+    """reduced configuration matrix for the wide (generated, many) programs: one run per mode plus a perturbed single-core run"""
+    seed = cfgs[0][4]
+    return [("async", 16, False, 0.0, seed), ("sync", 16, False, 0.0, seed), ("async", 1, False, 0.3, seed + 1), ("np", 16, False, 0.0, seed)]
+
+
+def pgen_programs(tier, seed):
+    """alpha-equivalent renderings of generated trees (tools/pgen.py): the same tree under several naming schemes / declaration orders"""
+    import pgen
+    n = 45 if tier == "quick" else 400
+    out = []
+    for k in range(n):
+        ast = seed * 100000 + k
+        P = pgen.generate(ast, fuel=4 + k % 3, lin=(k % 6 == 5))
+        variants = [("unique", None), ("local", None), ("reuse", None), ("clash", None), ("reuse", ast + 7)]
+        for sch, order in variants:
+            out.append({"name": "pg/%d-%s%s" % (ast, sch, "-perm" if order else ""), "text": pgen.render(P, sch, seed=ast, order=order), "src": "pgen",
+                        "wide": True, "ast": ast, "scheme": sch})
+    return out
+
+
 def real_runs(progs, cfgs, trace=True):
     binary = os.path.join(vlib.BUILD, "vdrive")
 
@@ -113,7 +134,8 @@ def real_runs(progs, cfgs, trace=True):
         p["terminates"] = not (r.get("timeout") or r.get("overflow") or r.get("hang"))
         p["probe_crash"] = r.get("crash")
     # phase 2: the configuration matrix for the programs that terminate
-    jobs = [mk(p, c, 8000, 30000) for p in progs if p["runnable"] and p.get("terminates") for c in cfgs]
+    jobs = [mk(p, c, 8000, 30000) for p in progs if p["runnable"] and p.get("terminates")
+            for c in (wide_matrix(cfgs, p["name"]) if p.get("wide") else cfgs)]
     res = vlib.run_jobs(binary, jobs, batch=1, timeout=30)
     # a run whose heartbeat timed out before the last event (machine load) is repeated, not judged
     for attempt in range(3):
@@ -321,7 +343,7 @@ def campaign(tier=None, seed=None, extra_progs=None, tag="rt"):
 
 def _campaign(tier, seed, extra_progs):
     with vlib.Work("rt") as work:
-        progs = fixed_corpus() + (extra_progs or [])
+        progs = fixed_corpus() + (extra_progs or []) + pgen_programs(tier, seed)
         try:
             import gen
             t1 = time.time()
@@ -352,7 +374,10 @@ def _campaign(tier, seed, extra_progs):
             if r["pcount"]:
                 size[r["prog"]] = max(size[r["prog"]], r["pcount"])
         limit = 16 if tier == "quick" else 22
-        small = [p for p in runnable if 0 < size[p["name"]] <= limit]
+        small = [p for p in runnable if 0 < size[p["name"]] <= limit and not p.get("wide")]
+        # of the wide (generated) programs only a few small ones are explored exhaustively
+        wsmall = [p for p in runnable if p.get("wide") and 0 < size[p["name"]] <= (10 if tier == "quick" else 14)]
+        small += wsmall[:8 if tier == "quick" else 60]
         # expected outcome of every interleaving: the reference semantics' bag when available,
         # else the bag the first real polarized run printed
         expect = {}
@@ -365,7 +390,10 @@ def _campaign(tier, seed, extra_progs):
         exh = exhaustive(small, work, timeout=300 if tier == "quick" else 1500,
                          expect={n: e["bag"] for n, e in expect.items() if e.get("unique")})
         tm["exhaustive"] = time.time() - t1; t1 = time.time()
-        val = validate_traces(progs, runs, work, max_events=1200 if tier == "quick" else 5000)
+        widenames = [p["name"] for p in progs if p.get("wide")]
+        keep = set(widenames[:25 if tier == "quick" else 200])
+        vruns = [r for r in runs if r["prog"] not in set(widenames) - keep]
+        val = validate_traces(progs, vruns, work, max_events=1200 if tier == "quick" else 5000)
         tm["validate"] = time.time() - t1; t1 = time.time()
         val["selftest"] = binding_selftest(progs, runs, work)
         tm["selftest"] = time.time() - t1
@@ -386,7 +414,7 @@ def _campaign(tier, seed, extra_progs):
         saxval["selftest"] = sax.selftest(runnable, obs, work)
         tm["sax_orders"] = time.time() - t1
         return {"tier": tier, "seed": seed,
-                "progs": [{k: p.get(k) for k in ("name", "src", "fe", "accepted", "closed", "runnable", "text")} | {
+                "progs": [{k: p.get(k) for k in ("name", "src", "fe", "accepted", "closed", "runnable", "text", "ast", "scheme", "wide")} | {
                     "cfree": contraction_free(p["dump"]) if p.get("dump") else None, "size": size.get(p["name"], 0)} for p in progs],
                 "runs": runs, "nonterminating": [p["name"] for p in progs if p["runnable"] and not p.get("terminates")], "exhaustive": exh, "small": [p["name"] for p in small], "validation": val, "expect": expect,
                 "matrix": [list(c) for c in cfgs], "timing": tm, "sax": saxexp, "sax_confluence": saxconf, "sax_orders": saxval}
